@@ -90,6 +90,28 @@ def build_leaf(spec):
         return pba.DSS(a[0], a[1]).to_pbox()
     if name == "stacking":
         return pba.stacking(a[0]) if a[1] is None else pba.stacking(a[0], weights=a[1])
+    if name == "ECDF":                 # pba.ECDF(sample): itself a Staircase
+        data = a[0]
+        return pba.ECDF(list(data) if a[1] == "list" else np.array(data, dtype=(int if a[1] == "int" else float)))
+    if name == "rawint":               # integer-dtype bounds (np.array of ints / Python lists of ints)
+        l, r = [int(x) for x in unrle(a[0])], [int(x) for x in unrle(a[1])]
+        return Staircase(left=l, right=r) if a[2] == "list" else Staircase(left=np.array(l), right=np.array(r))
+    if name == "known_properties":
+        return pba.known_properties(**a[0]).construct
+    if name == "known_constraints":
+        return pba.known_constraints(**a[0]).construct
+    if name == "stochastic_mixture":   # of intervals: another road to stacking
+        items = [pba.I(x[0], x[1]) if a[2] == "I" else list(x) for x in a[0]]
+        return pba.stochastic_mixture(*items) if a[1] is None else pba.stochastic_mixture(*items, weights=a[1])
+    if name == "stacking_mixed":       # Interval objects and [lo, hi] lists in one call, unequal weights
+        items = [pba.I(x[0], x[1]) if i % 2 == 0 else list(x) for i, x in enumerate(a[0])]
+        return pba.stacking(items, weights=a[1])
+    if name == "stacking_vec":
+        return pba.stacking(pba.I([x[0] for x in a[0]], [x[1] for x in a[0]]))
+    if name == "dist_list":            # Distribution(...) given a list of parameters
+        return pba.D(a[0], list(a[1])).to_pbox()
+    if name == "from_percentiles_ivl":
+        return pba.from_percentiles({float(k): (pba.I(v[0], v[1]) if isinstance(v, list) else v) for k, v in a})
     if name == "ecdf_bundle":
         lo, hi = sorted(a[0]), sorted(a[1])
         q1, p1 = get_ecdf(np.array(lo, dtype=float))
@@ -126,6 +148,26 @@ def leaf_specs(rng, n_lib, n_int):
     S.append(["chi2", [ivl(r2(rng, 2, 6), 1.0)]])
     S.append(["t", [ivl(r2(rng, 3, 6), 1.0)]])
     FIXED = [["t", [[1.5, 2]]], ["pareto", [[1.5, 2]]], ["cauchy", [[0, 1], [1, 2]]]]      # no finite variance / mean
+    # less common entry points with small adversarial arguments (two-point / balanced samples, one focal element,
+    # integer arguments, Interval objects mixed with lists, list parameters)
+    half = rng.choice([3, 25])
+    FIXED += [
+        ["ECDF", [[2, 5], "float"]], ["ECDF", [[1, 1, 4], "int"]], ["ECDF", [[0] * half + [1] * half, "list"]],
+        ["ECDF", [[r2(rng, 0, 6) for _ in range(rng.choice([2, 3, 7]))], "float"]], ["ECDF", [[3.0], "float"]],
+        ["KS_bounds", [[2.0, 5.0], 0.05]], ["KS_bounds", [[2.0], 0.05]], ["KS_bounds", [[2, 5, 7], 0.025]],
+        ["from_percentiles_ivl", [[0, 0], [0.5, [1, 2]], [0.75, [2, 3]], [1, 6]]], ["from_percentiles", [[0, 0], [0.5, 1], [1, 4]]],
+        ["known_properties", [{"minimum": 0, "maximum": 2, "mean": 1}]], ["known_properties", [{"minimum": 0, "maximum": 2}]],
+        ["known_properties", [{"mean": 1, "var": 0.25}]], ["known_constraints", [{"minimum": 0, "maximum": 2, "mean": 1}]],
+        ["min_max", [2, 5]], ["interval", [1, 3]], ["interval", [0, 0]],
+        ["dist_list", ["norm", [0, 1]]], ["dist", ["uniform", [1, 2]]],
+        ["stochastic_mixture", [[[1, 3], [2, 4]], None, "list"]], ["stochastic_mixture", [[[1, 3], [2, 4]], [0.9, 0.1], "I"]],
+        ["stacking_mixed", [[[1, 3], [2, 4], [0, 5]], [0.2, 0.3, 0.5]]], ["stacking_vec", [[[1, 3], [2, 4], [0, 5]]]],
+        ["stacking", [[[1, 3]], None]], ["dss", [[[1, 3]], [1.0]]], ["dss", [[[1, 2], [3, 4]], [0.5, 0.5]]],
+        ["dss", [[[5, 5], [6, 7]], [0.5, 0.5]]],
+        # thin but not degenerate, tiny magnitudes
+        ["interval", [1.0, 1.0 + 1e-9]], ["interval", [2e-9, 8e-9]], ["interval", [-3e-7, 5e-7]],
+        ["uniform", [[1.0, 1.0 + 1e-7], [1.0 + 2e-7, 1.0 + 3e-7]]], ["normal", [[5.0, 5.0 + 1e-6], [1e-7, 2e-7]]],
+    ]
     S.append(["dist", ["norm", [r2(rng, -1, 1), r2(rng, 0.5, 2)]]])
     S.append(["dist", ["uniform", [r2(rng, 1, 2), r2(rng, 1, 3)]]])
     a = r2(rng, -2, 3); w = r2(rng, 1, 4)
@@ -155,6 +197,9 @@ def leaf_specs(rng, n_lib, n_int):
     for i in range(n_int):
         l, r = pbx.int_box200(rng, [None, "pos", "neg", "str"][i % 4])
         S.append(["raw", [rle([int(x) for x in l]), rle([int(x) for x in r])]])
+    for i in range(max(4, n_int // 3)):        # the same kind of box kept as integer arrays / lists of Python ints
+        l, r = pbx.int_box200(rng, [None, "pos", "neg", "str"][i % 4])
+        S.append(["rawint", [rle([int(x) for x in l]), rle([int(x) for x in r]), "list" if i % 2 else "array"]])
     return S
 
 
@@ -236,6 +281,23 @@ MODELLED = {"leaf", "bin", "num", "rnum", "neg", "recip", "un", "env", "imp"}
 UFN = {"exp": np.exp, "sqrt": np.sqrt, "log": np.log}
 
 
+def snapshot(v):
+    """canonical value of a returned p-box: bounds (bytes + dtype), moments, range — compared again later to see
+    whether a value already handed to the user was changed by later calls (shared buffers, caches)"""
+    import hashlib
+    l, r = np.ascontiguousarray(v.left), np.ascontiguousarray(v.right)
+    return (hashlib.sha1(l.tobytes()).hexdigest(), hashlib.sha1(r.tobytes()).hexdigest(), str(l.dtype), str(r.dtype), len(l), len(r),
+            repr(float(v.mean.lo)), repr(float(v.mean.hi)), repr(float(v.var.lo)), repr(float(v.var.hi)),
+            repr(float(v.range.lo)), repr(float(v.range.hi)))
+
+
+def snapshot_safe(v):
+    try:
+        return snapshot(v)
+    except Exception as e:  # noqa
+        return ("unreadable", repr(e)[:60])
+
+
 class _Raised(Exception):
     """the real code raised inside a history; `wire` = model request built so far (None if not expressible)"""
 
@@ -260,7 +322,7 @@ class Hist:
         self.unmodelled = 0
 
     def note(self, path, kind, v):
-        self.values.append((path, kind, v))
+        self.values.append((path, kind, v, snapshot_safe(v)))
         try:
             a = np.concatenate([np.asarray(v.left, float).ravel(), np.asarray(v.right, float).ravel()])
             if not np.all(np.isfinite(a)):
@@ -404,6 +466,8 @@ def gen_spec(rng, depth, npool, budget):
                                     "pown", "powp", "minmax", "trig", "cond", "dssrt", "stackrt", "ufunc"])
     sub = lambda: gen_spec(rng, depth - 1 if rng.random() < 0.75 else rng.randrange(depth), npool, budget)
     C = [-3, -1, -0.5, 0.5, 2, 7, 0, 1, 10.25, -2]
+    if rng.random() < 0.15:      # constants below machine epsilon and above 1e15
+        C = [1e-20, 2.0 ** -60, 1.380649e-23, -1e-20, 1e18, -3e15]
     if kind == "bin":
         op = rng.choice(["add", "sub", "mul", "div"])
         dep = rng.choice(["f", "f", "p", "p", "o", "o", "i", "i", "b", "x"] if rng.random() < 0.5 else ["f", "p", "o", "i"])
@@ -648,6 +712,56 @@ def moment_specs(ctx):
     S.append(("heavy-tail-pareto-mixed", L(["pareto", [[2.001, 4]]])))
     S.append(("heavy-tail-lognormal-mixed", L(["lognormal", [0, [0.5, 3.5]]])))
     S.append(("heavy-tail-t-mixed-neg", ["neg", L(["t", [[2.001, 30]]])]))
+    # --- less common entry points, small adversarial arguments (moments derived or supplied by the entry point) ---
+    half = rng.choice([3, 25])
+    S.append(("ECDF-two-point", L(["ECDF", [[2, 5], "float"]])))
+    S.append(("ECDF-repeated-extreme", L(["ECDF", [[1, 1, 4], "int"]])))
+    S.append(("ECDF-balanced-binary", L(["ECDF", [[0] * half + [1] * half, "list"]])))
+    S.append(("ECDF-balanced-binary-neg", ["neg", L(["ECDF", [[0] * 25 + [1] * 25, "float"]])]))
+    S.append(("ECDF-sample", L(["ECDF", [[r2(rng, 0, 6) for _ in range(rng.choice([3, 7, 12]))], "float"]])))
+    S.append(("ECDF-one-value", L(["ECDF", [[3.0], "float"]])))
+    S.append(("ECDF-far", L(["ECDF", [[1e6 + 1, 1e6 + 2, 1e6 + 2.5], "float"]])))
+    S.append(("KS-two-values", L(["KS_bounds", [[2.0, 5.0], 0.05]])))
+    S.append(("from_percentiles-intervals", L(["from_percentiles_ivl", [[0, 0], [0.5, [1, 2]], [0.75, [2, 3]], [1, 6]]])))
+    S.append(("known_properties-mmm", L(["known_properties", [{"minimum": 0, "maximum": 2, "mean": r2(rng, 0.5, 1.5)}]])))
+    S.append(("known_properties-mv", L(["known_properties", [{"mean": 1, "var": 0.25}]])))
+    S.append(("known_constraints", L(["known_constraints", [{"minimum": 0, "maximum": 2, "mean": 1}]])))
+    S.append(("stochastic_mixture", L(["stochastic_mixture", [[[1, 3], [2, 4]], [0.9, 0.1], "I"]])))
+    S.append(("stacking-mixed", L(["stacking_mixed", [[[1, 3], [2, 4], [0, 5]], [0.2, 0.3, 0.5]]])))
+    S.append(("dss-one-focal", L(["dss", [[[1, 3]], [1.0]]])))
+    S.append(("dss-separated-offset", ["num", "add", 3000, L(["dss", [[[1, 2], [3, 4]], [0.5, 0.5]]])]))
+    S.append(("dss-separated-offset-neg", ["neg", ["num", "add", 3000, L(["dss", [[[1, 2], [3, 4]], [0.5, 0.5]]])]]))
+    S.append(("dss-degenerate-focal-far", L(["dss", [[[5000, 5000], [5001, 5002]], [0.5, 0.5]]])))
+    S.append(("indep-sum-offset", ["num", "sub", 8000, ["bin", "add", "i", L(["normal", [[0, 1], 1]]), L(["normal", [[0, 1], 1]])]]))
+    S.append(("dist-list-params", ["num", "add", 1, L(["dist_list", ["norm", [0, 1]]])]))
+    S.append(("condensation", ["cond", 5, L(nrm())]))
+    S.append(("dss-round-trip", ["dssrt", L(u())]))
+    S.append(("min/f", ["minmax", "min", "f", L(nrm()), L(u())]))
+    S.append(("max/o", ["minmax", "max", "o", L(nrm()), L(u())]))
+    S.append(("pow-minus-one", ["pown", -1, L(["interval", [1.0, 2.0]])]))
+    S.append(("pow-minus-two", ["pown", -2, L(["normal", [[5, 6], 1]])]))
+    S.append(("pow-cube-inside-unit", ["pown", 3, L(["uniform", [0.1, 0.5]])]))
+    S.append(("pow-zero", ["pown", 0, L(nrm())]))
+    S.append(("pow/p", ["powp", "p", L(["uniform", [[1, 2], [3, 4]]]), L(["uniform", [[0.5, 1], [1.5, 2]]])]))
+    S.append(("tanh", ["trig", "tanh", L(nrm())]))
+    # --- integer-dtype bounds ---
+    S.append(("int-dtype-array", L(["rawint", [[[0, 100], [1, 100]], [[1, 100], [3, 100]], "array"]])))
+    S.append(("int-dtype-list-times-2", ["num", "mul", 2, L(["rawint", [[[-3, 50], [1, 150]], [[2, 120], [4, 80]], "list"]])]))
+    S.append(("int-dtype-plus-int", ["num", "add", 7, L(["min_max", [2, 5]])]))
+    S.append(("int-dtype-sum", ["bin", "add", "p", L(["rawint", [[[0, 100], [1, 100]], [[1, 100], [3, 100]], "array"]]), L(["min_max", [2, 5]])]))
+    # --- thin but not degenerate; tiny magnitudes ---
+    S.append(("thin-uniform", L(["uniform", [[1.0, 1.0 + 1e-7], [1.0 + 2e-7, 1.0 + 3e-7]]])))
+    S.append(("thin-sum", ["bin", "add", "f", L(["interval", [1.0, 1.0 + 1e-9]]), L(["interval", [1.0, 1.0 + 1e-9]])]))
+    S.append(("thin-difference", ["bin", "sub", "p", L(["uniform", [[1.0, 1.0 + 1e-7], [1.0 + 2e-7, 1.0 + 3e-7]]]), L(["interval", [1.0, 1.0 + 1e-9]])]))
+    S.append(("tiny-product", ["bin", "mul", "p", L(["interval", [2e-9, 8e-9]]), L(["uniform", [[2e-9, 3e-9], [7e-9, 8e-9]]])]))
+    # --- extreme constants; precise boxes far from the origin ---
+    for cname, cst in (("1e-20", 1e-20), ("2^-60", 2.0 ** -60), ("1e18", 1e18)):
+        S.append(("scale-" + cname, ["num", "mul", cst, L(nrm())]))
+    S.append(("offset-1e15", ["num", "add", 1e15, L(u())]))
+    S.append(("precise-uniform+3e8", ["num", "add", 3e8, L(["uniform", [0, 3]])]))
+    S.append(("precise-normal-1e8", ["num", "sub", 1e8, L(["normal", [0, 1]])]))
+    S.append(("precise-exp+1e10", ["num", "add", 1e10, ["un", "exp", L(["uniform", [0, 1]])]]))
+    S.append(("ECDF+1e9", ["num", "add", 1e9, L(["ECDF", [[1.0, 2.0, 4.0, 7.0], "float"]])]))
     if ctx.tier == "thorough":
         S.append(("mul/f-straddle", ["bin", "mul", "f", L(["normal", [[-1, 1], [0.5, 1]]]), L(nrm())]))
         for _ in range(60):
@@ -678,6 +792,18 @@ def moment_eval(spec):
         return moment_eval(spec[1]).env(moment_eval(spec[2]))
     if k == "imp":
         return moment_eval(spec[1]).imp(moment_eval(spec[2]))
+    if k == "cond":
+        return moment_eval(spec[2]).condensation(spec[1])
+    if k == "dssrt":
+        return moment_eval(spec[1]).to_dss().to_pbox()
+    if k == "minmax":
+        return getattr(moment_eval(spec[3]), spec[1])(moment_eval(spec[4]), method=spec[2])
+    if k == "pown":
+        return moment_eval(spec[2]) ** spec[1]
+    if k == "powp":
+        return moment_eval(spec[2]).pow(moment_eval(spec[3]), dependency=spec[1])
+    if k == "trig":
+        return getattr(moment_eval(spec[2]), spec[1])()
     raise KeyError(k)
 
 
@@ -692,6 +818,17 @@ def moment_worker(item):
     except BaseException as e:  # noqa
         return {"name": name, "spec": spec, "err": core.err_kind(e), "msg": str(e)[:80]}
     probs = wf_problems(p, real_moments=True)
+    # the value stays alive while unrelated p-boxes are built and dropped; it must still read the same
+    snap = snapshot_safe(p)
+    try:
+        for _ in range(2):
+            _tmp = -build_leaf(["normal", [[0.5, 1.5], [0.3, 0.4]]]) * 3
+            _tmp = build_leaf(["dss", [[[1, 3], [2, 4]], [0.3, 0.7]]]) if spec[0] == "L" else None
+            del _tmp
+    except BaseException:  # noqa
+        pass
+    if snapshot_safe(p) != snap:
+        probs.append(("changed-after-return", "bounds or moments differ after unrelated calls"))
     meta = getattr(p, "_moments_meta", None)
     return {"name": name, "spec": spec, "problems": probs, "method": (meta or {}).get("method"),
             "support": [float(p.left[0]), float(p.right[-1])], "mean": [float(p.mean.lo), float(p.mean.hi)],
@@ -796,7 +933,7 @@ def run(ctx: core.Check):
         except BaseException as e:  # noqa
             ctx.bump("leaf-constructor-raises:" + s[0])
             continue
-        case = {"constructor": s[0], "args": s[1] if s[0] != "raw" else "integer step box"}
+        case = {"constructor": s[0], "args": s[1] if not s[0].startswith("raw") else "integer step box (%s)" % s[0]}
         probs = wf_problems(v)
         report_problems(ctx, probs, {"node": "leaf", "ctor": s[0], "stream": "leaf"}, case, f"constructor {s[0]}")
         ctx.count(("leaf", json.dumps(s)), True, "leaf")
@@ -805,7 +942,7 @@ def run(ctx: core.Check):
         l = [float(x) for x in v.left]; r = [float(x) for x in v.right]
         if not all(math.isfinite(x) for x in l + r):
             continue
-        pool.append({"spec": s, "value": v, "wire": f"L 0 {ql(l)} {ql(r)}", "int": s[0] == "raw"})
+        pool.append({"spec": s, "value": v, "wire": f"L 0 {ql(l)} {ql(r)}", "int": s[0] in ("raw", "rawint"), "snap": snapshot_safe(v)})
     int_idx = [i for i, p in enumerate(pool) if p["int"]]
     def evaluate(sp):
         h = Hist(pool)
@@ -814,7 +951,9 @@ def run(ctx: core.Check):
             impl = pbx.canon_pb(v)
         except _Raised as e:
             impl, wire, v = ("err", core.err_kind(e.orig)), e.wire, None
-        return (sp, h, impl, wire, v)
+        # the oracle on every value the real code returned along the way
+        h.problems = [(path, kind, wf_problems(val)) for path, kind, val, _ in h.values if kind != "leaf"]
+        return (sp, h, impl, wire, None)
 
     def to_int(s):
         if s[0] == "leaf":
@@ -822,6 +961,28 @@ def run(ctx: core.Check):
         return [to_int(x) if (isinstance(x, list) and x and isinstance(x[0], str) and x[0] in ALLK) else x for x in s]
 
     runs = []
+    keep = 400      # only the latest results stay alive in long runs
+
+    def recheck(lo_, hi_, when):
+        """values already handed out must still read the same (no shared buffers / caches written by later calls),
+        and the operands must be what they were"""
+        for (sp_, h_, _, _, _) in runs[lo_:hi_]:
+            for path, kind, val, snap in h_.values:
+                if kind == "leaf" or val is None:
+                    continue
+                now = snapshot_safe(val)
+                if now != snap:
+                    ctx.fail({"node": kind, "stream": "history", "check": "changed-after-return"},
+                             {"history": sp_, "at": path, "when": when, "recorded": snap, "now": now},
+                             f"a p-box returned by {kind} reads differently {when}: fields {[i for i, (a, b) in enumerate(zip(snap, now)) if a != b]}")
+        for i_, pl in enumerate(pool):
+            now = snapshot_safe(pl["value"])
+            if now != pl["snap"]:
+                ctx.fail({"node": "leaf", "stream": "history", "check": "operand-changed", "ctor": pl["spec"][0]},
+                         {"leaf": pl["spec"] if not pl["spec"][0].startswith("raw") else pl["spec"][0], "when": when, "recorded": pl["snap"], "now": now},
+                         f"operand #{i_} ({pl['spec'][0]}) was changed by an operation ({when})")
+                pl["snap"] = now
+
     nh = ctx.scale(230, 9000)
     for i in range(nh):
         depth = [1, 2, 3, 4][i % 4]
@@ -834,10 +995,29 @@ def run(ctx: core.Check):
             if res[2][0] == "ok" or rng.random() < 0.3:
                 break
         runs.append(res)
-    # witnesses that must always be present (root causes repaired by `fix:` commits)
+        if len(runs) % 50 == 0:
+            recheck(max(0, len(runs) - keep), len(runs), f"after {len(runs)} histories")
+            ctx.bump("aliasing-rechecks")
+            for old_ in runs[max(0, len(runs) - keep - 50): max(0, len(runs) - keep)]:
+                old_[1].values = []          # let go of results older than the window
+    # witnesses of root causes repaired by `fix:` commits
+    def first(name, default):
+        return next((i for i, pl in enumerate(pool) if pl["spec"][0] == name), default)
+    iu, ie = first("uniform", 0), first("exponential", 1 % len(pool))
     for d in "poi":
-        runs.append(evaluate(["powp", d, ["leaf", 0], ["leaf", 1 % len(pool)]]))
-    runs.append(evaluate(["minmax", "max", "o", ["leaf", 0], ["leaf", 1 % len(pool)]]))
+        runs.append(evaluate(["powp", d, ["leaf", iu], ["leaf", ie]]))
+    runs.append(evaluate(["minmax", "max", "o", ["leaf", first("min_max_mean_std", 0)], ["leaf", first("mean_var", 1 % len(pool))]]))
+    recheck(max(0, len(runs) - keep), len(runs), "at the end of the history stream")
+    # the same history evaluated again, after everything else: identical value
+    again = [j for j in range(len(runs)) if runs[j][2][0] == "ok"]
+    rng.shuffle(again)
+    for j in again[: ctx.scale(30, 300)]:
+        second = evaluate(runs[j][0])
+        ctx.bump("evaluated-twice")
+        if second[2] != runs[j][2]:
+            ctx.fail({"node": runs[j][0][0], "stream": "history", "check": "not-reproducible"},
+                     {"history": runs[j][0], "first": pbx.js(runs[j][2]), "second": pbx.js(second[2])},
+                     "the same history evaluated twice (other operations in between) gave different values")
     reqs, idx = [], []
     for j, (sp, h, impl, wire, v) in enumerate(runs):
         if wire is None or h.nonfinite:
@@ -850,21 +1030,21 @@ def run(ctx: core.Check):
         ctx.count(json.dumps(sp), sp[0] != "leaf", "history-depth-%d" % spec_depth(sp))
         for kd in set(kinds):
             ctx.bump("node:" + kd)
-        case = {"history": sp, "leaves": {str(i): pool[i]["spec"] if pool[i]["spec"][0] != "raw" else "integer step box #%d" % i
+        case = {"history": sp, "leaves": {str(i): pool[i]["spec"] if not pool[i]["spec"][0].startswith("raw") else "integer step box #%d (%s)" % (i, pool[i]["spec"][0])
                                          for i in sorted(set(_leaf_ids(sp, [])))}, "impl": pbx.js(impl)}
-        # oracle on every value the real code returned along the way
-        for path, kind, val in h.values:
-            if kind == "leaf":
-                continue
+        for path, kind, probs in h.problems:
             sub = _sub_at(sp, path)
             feat = {"node": kind, "stream": "history", "op": sub[1] if kind in ("bin", "num", "rnum", "un", "trig", "ufunc", "minmax") else None,
                     "dep": sub[2] if kind in ("bin", "minmax") else (sub[1] if kind == "powp" else None)}
-            report_problems(ctx, wf_problems(val), feat, {**case, "at": path, "node": sub[:3] if kind != "leaf" else sub}, f"result of {kind} {sub[1:3] if len(sub) > 2 else ''}")
+            report_problems(ctx, probs, feat, {**case, "at": path, "node": sub[:3]}, f"result of {kind} {sub[1:3] if len(sub) > 2 else ''}")
         if j in replies:
             model = pbx.parse_reply(replies[j])
             exact = h.exact and h.scale < 2.0 ** 50 and not any(k.startswith("bin:div") or k in ("recip", "un") for k in kinds) \
                 and not any(s_[0] in ("num", "rnum") and (s_[1] == "div" or float(s_[2]) != int(s_[2])) for s_ in _all_nodes(sp, []))
-            ok = same_hist(impl, model, exact, h.scale, h.nodes)
+            nodes_ = _all_nodes(sp, [])
+            relative = all(s_[0] in ("leaf", "neg", "recip", "env", "imp") or (s_[0] in ("num", "rnum") and s_[1] in ("mul", "div"))
+                           for s_ in nodes_)     # no sums: every entry is accurate relative to its own size
+            ok = same_hist(impl, model, exact, h.scale, h.nodes, relative)
             if ok:
                 ctx.tie_ok()
             else:
@@ -876,6 +1056,10 @@ def run(ctx: core.Check):
             ctx.bump("history-raises:" + impl[1])
         if j % 37 == 0:
             ctx.sample({"history": sp, "impl": pbx.js(impl)}, cap=8)
+
+    # ---- (b') fixed sequence: the same entry points called repeatedly with operands created and dropped in
+    # between, the same numbers bound differently; earlier results must not change and equal calls must agree ------
+    sequence_stream(ctx)
 
     # ---- (c) moment stream results ---------------------------------------------------------------
     mres = masync.get(timeout=3000)
@@ -891,6 +1075,58 @@ def run(ctx: core.Check):
         for chk, detail in res["problems"]:
             ctx.fail({**feat, "check": chk}, case, f"real moment code on {res['name']}: {chk} — {detail}")
     ctx.extra_cov["moment_stream"] = [{k: r.get(k) for k in ("name", "method", "support", "mean", "var", "secs", "err")} for r in mres][:40]
+
+
+def sequence_stream(ctx):
+    from pyuncertainnumber import pba
+    ivs = [[1, 3], [2, 4], [0, 5]]
+    calls = [
+        ("dss-masses-A", lambda: pba.DSS(ivs, [0.8, 0.1, 0.1]).to_pbox()),
+        ("dss-masses-B", lambda: pba.DSS(ivs, [0.1, 0.1, 0.8]).to_pbox()),          # same focal elements, other masses
+        ("dss-masses-A", lambda: pba.DSS(ivs, [0.8, 0.1, 0.1]).to_pbox()),
+        ("stacking-w-A", lambda: pba.stacking(ivs, weights=[0.8, 0.1, 0.1])),
+        ("stacking-w-B", lambda: pba.stacking(ivs, weights=[0.1, 0.1, 0.8])),
+        ("stacking-w-A", lambda: pba.stacking([pba.I(1, 3), [2, 4], pba.I(0, 5)], weights=[0.8, 0.1, 0.1])),
+        ("normal-A", lambda: pba.normal([1, 2], [0.5, 1])),
+        ("normal-B", lambda: pba.normal([0.5, 1], [1, 2])),                          # the same numbers bound the other way
+        ("normal-A", lambda: pba.normal(pba.I(1, 2), pba.I(0.5, 1))),
+        ("expon-A", lambda: pba.exponential(scale=[1, 2])),
+        ("expon-B", lambda: pba.exponential(scale=[2, 3])),
+        ("expon-A", lambda: pba.exponential(scale=[1, 2])),
+        ("ecdf-A", lambda: pba.ECDF(np.array([1.0, 2.0, 4.0]))),
+        ("ecdf-B", lambda: pba.ECDF(np.array([1.0, 2.0, 7.0]))),
+        ("ecdf-A", lambda: pba.ECDF([1.0, 2.0, 4.0])),
+        ("sum-A", lambda: pba.normal([1, 2], [0.5, 1]).add(pba.uniform([1, 2], [3, 4]), dependency="p")),
+        ("sum-B", lambda: pba.normal([1, 2], [0.5, 1]).add(pba.uniform([1, 2], [3, 5]), dependency="p")),
+        ("sum-A", lambda: pba.normal([1, 2], [0.5, 1]).add(pba.uniform([1, 2], [3, 4]), dependency="p")),
+    ]
+    seen, alive = {}, []
+    for rnd in range(2):
+        for name, f in calls:
+            ctx.count(("sequence", name, rnd, len(alive)), True, "sequence")
+            try:
+                v = f()
+            except BaseException as e:  # noqa
+                ctx.fail({"node": "sequence", "stream": "sequence", "name": name, "check": "raises"}, {"call": name},
+                         f"sequence call {name} raised {type(e).__name__}: {str(e)[:80]}")
+                continue
+            report_problems(ctx, wf_problems(v), {"node": "sequence", "stream": "sequence", "name": name}, {"call": name}, f"sequence call {name}")
+            c = (pbx.canon_pb(v)[1], pbx.canon_pb(v)[2])
+            if name in seen and seen[name] != c:
+                ctx.fail({"node": "sequence", "stream": "sequence", "name": name, "check": "not-reproducible"}, {"call": name},
+                         f"the call {name} returned different bounds than the same call made earlier in the sequence")
+            seen.setdefault(name, c)
+            for other, co in seen.items():
+                if other != name and other.rsplit("-", 1)[0] == name.rsplit("-", 1)[0] and co == c:
+                    ctx.fail({"node": "sequence", "stream": "sequence", "name": name, "check": "distinct-arguments-identical-result"},
+                             {"call": name, "other": other}, f"{name} and {other} have different arguments but returned identical bounds")
+            alive.append((name, v, snapshot_safe(v)))
+            _drop = [pba.I(i, i + 1).to_pbox() for i in range(3)]      # created and dropped in between (address reuse)
+            del _drop
+    for name, v, snap in alive:
+        if snapshot_safe(v) != snap:
+            ctx.fail({"node": "sequence", "stream": "sequence", "name": name, "check": "changed-after-return"}, {"call": name},
+                     f"the p-box returned by {name} reads differently at the end of the sequence")
 
 
 LEAN_MODULES = ["Pun.Lemmas.WellFormed", "Pun.Props.C04"]
@@ -924,7 +1160,7 @@ def _sub_at(s, path):
     return s
 
 
-def same_hist(impl, model, exact, scale, nodes):
+def same_hist(impl, model, exact, scale, nodes, relative=False):
     if impl[0] != model[0]:
         return False
     if impl[0] == "err":
@@ -936,6 +1172,8 @@ def same_hist(impl, model, exact, scale, nodes):
         return False
     if exact:
         return all(F(a) == b for a, b in zip(vi, vm))
+    if relative:
+        return all(abs(F(a) - b) <= F(64 * max(nodes, 1)) * F(core.ulp(max(abs(a), abs(float(b))))) for a, b in zip(vi, vm))
     S = max([scale] + [abs(float(b)) for b in vm])
     tol = F(64 * max(nodes, 1)) * F(core.ulp(S))
     return all(abs(F(a) - b) <= tol for a, b in zip(vi, vm))
